@@ -20,7 +20,7 @@ macro_rules! run_stream {
         let mut k = 0;
         while k < $calls {
             let n = $r.input_frames_next();
-            $nd.assume(pos + n <= $x.len());
+            $crate::fit!($nd, pos + n <= $x.len(), "C05.input_demand_consistent[base]");
             let mut o = [SENT; $MO];
             match $r.process_into_buffer(&[&$x[pos..pos + n]], &mut [&mut o[..]], None) {
                 Ok((ni, no)) => {
@@ -124,7 +124,7 @@ harnesses! {
                 probe::set_strict(true);
             }
             let n = r.input_frames_next();
-            nd.assume(pos + n <= 32);
+            crate::fit!(nd, pos + n <= 32, "C05.input_demand_consistent[base]");
             let mut o = [SENT; 18];
             match r.process_into_buffer(&[&x[pos..pos + n]], &mut [&mut o[..]], None) {
                 Ok((ni, no)) => {
@@ -156,6 +156,57 @@ harnesses! {
         forget(r);
     }
     #[kani::unwind(12)]
+    fn c05_sfi_chunk_change_to3(nd) {
+        probe::reset_flags();
+        let mut r = SincFixedIn::<f64>::new_with_interpolator(1.0, 1.0, SincInterpolationType::Linear, probe::boxed64(4, 2), 8, 1).unwrap();
+        let mut x = [0.0f64; 32];
+        crate::drive::fill_line(&mut x[..], 0);
+        let mut y = [0.0f64; 24];
+        // two calls at the construction chunk size: the pre-roll holds the line
+        let mut pos = 0usize;
+        let mut got = 0usize;
+        let mut k = 0;
+        let c = 3usize;
+        let mut changed = false;
+        while k < 4 {
+            if k == 2 {
+                check!(r.set_chunk_size(c).is_ok(), "C03.ok[base]");
+                changed = c != 8;
+                probe::set_strict(true);
+            }
+            let n = r.input_frames_next();
+            crate::fit!(nd, pos + n <= 32, "C05.input_demand_consistent[base]");
+            let mut o = [SENT; 18];
+            match r.process_into_buffer(&[&x[pos..pos + n]], &mut [&mut o[..]], None) {
+                Ok((ni, no)) => {
+                    pos += ni;
+                    unroll32!(i, 18, { if i < no && got + i < 24 { y[got + i] = o[i]; } });
+                    got += no;
+                }
+                Err(_) => { check!(false, "C03.ok[base]"); }
+            }
+            k += 1;
+        }
+        // frames 2.. are past the start-up transient
+        let mut uniform = true;
+        unroll32!(i, 24, {
+            if i >= 3 && i < got && i < 24 {
+                let d = y[i] - y[i - 1];
+                if !(d == 1.0) { uniform = false; }
+            }
+        });
+        if changed {
+            check!(!probe::offline(), "C05.no_stale_storage[chunk_changed_midstream]");
+            check!(uniform, "C05.stream_continuous[chunk_changed_midstream]");
+        } else {
+            check!(!probe::offline(), "C05.no_stale_storage[base]");
+            check!(uniform, "C05.stream_continuous[base]");
+        }
+        
+        
+        forget(r);
+    }
+    #[kani::unwind(12)]
     fn c05_sfo_chunk_change(nd) {
         probe::reset_flags();
         let mut r = SincFixedOut::<f64>::new_with_interpolator(1.0, 1.0, SincInterpolationType::Linear, probe::boxed64(4, 2), 4, 1).unwrap();
@@ -174,7 +225,7 @@ harnesses! {
                 probe::set_strict(true);
             }
             let n = r.input_frames_next();
-            nd.assume(pos + n <= 32);
+            crate::fit!(nd, pos + n <= 32, "C05.input_demand_consistent[base]");
             let mut o = [SENT; 4];
             match r.process_into_buffer(&[&x[pos..pos + n]], &mut [&mut o[..]], None) {
                 Ok((ni, no)) => {
